@@ -480,6 +480,38 @@ func bigDescs() []*Desc {
 		}
 	}
 	out = append(out, &Desc{Name: "deep.nesting", Mems: []Mem{{Kind: 't', Name: "Deep", T: strct(Fld{"d", deep})}, {Kind: 'm', Name: "M", In: strct(Fld{"d", deep}), Out: strct(Fld{"d", wrap(kMaybe, alias("Deep"))})}}})
+	// counts beyond any plausible internal limit: hundreds of typeless errors before the typed members, thousands of
+	// members, nesting depth in the hundreds
+	{
+		d := &Desc{Name: "org.example.counts"}
+		for i := 0; i < 700; i++ {
+			d.Mems = append(d.Mems, Mem{Kind: 'e', Name: fmt.Sprintf("Bare%d", i)})
+		}
+		d.Mems = append(d.Mems, Mem{Kind: 't', Name: "After", T: strct(Fld{"d", deep})}, Mem{Kind: 'm', Name: "M", In: strct(Fld{"a", alias("After")}), Out: strct()})
+		out = append(out, d)
+		d = &Desc{Name: "org.example.thousands"}
+		for i := 0; i < 1100; i++ {
+			d.Mems = append(d.Mems, Mem{Kind: 'e', Name: fmt.Sprintf("E%d", i)}, Mem{Kind: 't', Name: fmt.Sprintf("T%d", i), T: enum("a", "b")},
+				Mem{Kind: 'm', Name: fmt.Sprintf("M%d", i), In: strct(), Out: strct(Fld{"r", wrap(kMaybe, alias(fmt.Sprintf("T%d", i)))})})
+		}
+		out = append(out, d)
+		for _, depth := range []int{100, 520, 1500} {
+			dd := base(kInt)
+			for i := 0; i < depth; i++ {
+				switch i % 4 {
+				case 0:
+					dd = wrap(kArray, dd)
+				case 1:
+					dd = wrap(kMap, dd)
+				case 2:
+					dd = strct(Fld{"i", dd})
+				case 3:
+					dd = wrap(kMaybe, dd)
+				}
+			}
+			out = append(out, &Desc{Name: "deep.er", Mems: []Mem{{Kind: 'm', Name: "M", In: strct(Fld{"d", dd}), Out: strct()}}})
+		}
+	}
 	// long names
 	out = append(out, &Desc{Name: strings.Repeat("xY", 30) + "." + long("y", 60) + "." + long("z", 60), Mems: []Mem{{Kind: 't', Name: long("T", 130), T: strct(Fld{long("f", 130), alias(long("T", 130))}.maybe())},
 		{Kind: 'm', Name: long("M", 200), In: strct(Fld{long("a", 90), base(kInt)}), Out: strct(Fld{long("b_", 90), wrap(kArray, alias(long("T", 130)))})}, {Kind: 'e', Name: long("E", 64), T: strct()}}})
@@ -506,7 +538,7 @@ func replayC05(r *fw.Run, raw json.RawMessage) {
 func init() {
 	fw.Register(&fw.Engine{
 		ID: "C05", Level: "exploration",
-		Rule: "syntax trees of the varlink grammar: a bounded-exhaustive core (every type of nesting depth <= 2 over {5 builtins, alias, ?, [], [string], struct <= 2 fields, enum <= 2 names} at each of 5 positions; every member-kind sequence of length <= 3 containing a method, typeless and typed errors) rendered in 4 fixed layouts (canonical, tightest, CRLF, tabs) and N seeded random layouts (gaps drawn from {none, space, tab, CR, LF, CRLF, comment-to-end-of-line}, doc blocks, detached comments, 8 end-of-file forms), plus seeded random trees (<= 40 members, depth <= 8). A case = (tree, rendering); non-trivial = the tree has >= 2 members or a composite type; distinct by hash of (tree, text). Oracle: idl.New succeeds and the tree equals the generated one (names, member order in all four lists, every type nested as written, Description verbatim, documentation of comment blocks directly above a member). Plus large shapes: 90 members, 48-field structs and enums, lists of 63..300 entries, nesting depth 30, names of 130..200 characters, user types named like builtin types and keywords.",
+		Rule: "syntax trees of the varlink grammar: a bounded-exhaustive core (every type of nesting depth <= 2 over {5 builtins, alias, ?, [], [string], struct <= 2 fields, enum <= 2 names} at each of 5 positions; every member-kind sequence of length <= 3 containing a method, typeless and typed errors) rendered in 4 fixed layouts (canonical, tightest, CRLF, tabs) and N seeded random layouts (gaps drawn from {none, space, tab, CR, LF, CRLF, comment-to-end-of-line}, doc blocks, detached comments, 8 end-of-file forms), plus seeded random trees (<= 40 members, depth <= 8). A case = (tree, rendering); non-trivial = the tree has >= 2 members or a composite type; distinct by hash of (tree, text). Oracle: idl.New succeeds and the tree equals the generated one (names, member order in all four lists, every type nested as written, Description verbatim, documentation of comment blocks directly above a member). Plus large shapes: 90 members, 48-field structs and enums, lists of 63..300 entries, nesting depth 30, names of 130..200 characters, 700 typeless errors in front of typed members, 3300 members, nesting depth 100/520/1500, user types named like builtin types and keywords.",
 		Assumptions: []string{"documentation is asserted only for a block of comment-only lines directly above a member whose keyword and name are on one line", "whitespace between a prefix (?, [], [string]) and its element type is not generated", "error parameter lists start on the line of the error name"},
 		Run:         runC05, Replay: replayC05, CrashIsViolation: true, MinEvals: 1000,
 	})
